@@ -22,6 +22,7 @@ var badOrigins = []string{
 	"https://*.*.example.com", "http://*.127.0.0.1", "https://example.com:", "example.com", "https://",
 	"http://[fe80::1%eth0]:8080", "http://[::ffff:1.2.3.4]", "https://*." + longLabels252, "https://" + longLabels252 + "x.toolong",
 	"https://" + strings.Repeat("a", 64) + ".example.com", strings.Repeat("s", 65) + "://example.com",
+	"https://\u212Aelvin.example.com", "http\u017f://example.com", "https://xn--f", "https://-foo.com", "https://foo-.com", "https://ab--cd.com", "https://*.xn--f.example.com:*",
 	"https://a.example.com,https://b.example.com", "https://a.example.com https://b.example.com", "https://example.com/", "https://example.com, null",
 }
 
@@ -29,12 +30,14 @@ var badOrigins = []string{
 var longLabels252 = strings.Repeat("a", 63) + "." + strings.Repeat("b", 63) + "." + strings.Repeat("c", 63) + "." + strings.Repeat("d", 56) + ".com"
 var badMethods = []string{"CONNECT", "TRACE", "TRACK", "connect", "GE T", "", "a/b", "tRaCe",
 	// several values in one string, as other libraries' options accept them: not a token here
-	"PUT,DELETE", "PUT, CONNECT, TRACE", "GET;POST", "GET,TRACE"}
+	"PUT,DELETE", "PUT, CONNECT, TRACE", "GET;POST", "GET,TRACE",
+	// not ASCII: U+212A KELVIN SIGN and U+017F LONG S fold to k and s under Unicode case mapping
+	"CHEC\u212A", "PUR\u017fE", "D\u00c9LETE"}
 var badReqHdrs = []string{"X Foo", "", "Cookie", "Sec-Foo", "proxy-x", "Host", "Access-Control-Allow-Origin",
 	"access-control-allow-headers", "Access-Control-Request-Headers", "Origin", "a:b", "Content-Length",
-	"X-A,X-B", "X-A, Cookie", "Content-Type;X-B"}
+	"X-A,X-B", "X-A, Cookie", "Content-Type;X-B", "X-\u212Aey", "X-Re\u017fult", "X-\u00c9tat", "x-\u212a"}
 var badResHdrs = []string{"Set-Cookie", "set-cookie2", "Origin", "a b", "", "Access-Control-Request-Method",
-	"Access-Control-Allow-Methods", "Access-Control-Max-Age", "X-A,X-B", "X-A, Set-Cookie"}
+	"Access-Control-Allow-Methods", "Access-Control-Max-Age", "X-A,X-B", "X-A, Set-Cookie", "X-\u212Aey", "X-Re\u017fult"}
 // out of bounds - among them values that become legal again when truncated to 8, 16 or 32 bits
 var badMaxAge = []int{-2, 86401, -100, 1 << 30, 1<<16 + 86400, -1 - 1<<16, 1<<32 + 5, 1<<32 - 1, -1 << 31, 1<<31 + 600}
 var badStatus = []int{199, 300, 100, 404, -1, 1, 204 + 1<<8, 200 + 1<<16, 299 + 1<<16, 204 - 1<<16, 204 + 1<<32, 200 - 1<<8}
